@@ -166,16 +166,17 @@ pub fn shard_run(tier: &str, seed: u64, replay_case: Option<usize>, shard: Shard
                 _ => Req::GetSnapshot,
             };
             descr.push(format!("#{k} c{c} {} ({} bytes)", req.name(), size));
-            // one request of every sixth history arrives while another process holds the database's
-            // write lock for longer than the whole lock-wait budget: it may fail (and then must not
-            // have written anything, at any crash point) or be served once the lock is free
-            let lock_held = hi % 6 == 4 && k == 2;
+            // one request of every third history arrives while another process holds the database's
+            // write lock for about as long as the whole lock-wait budget (4.6 - 5.3 s): it may fail (and
+            // then must not have written anything, at any crash point) or be served once the lock is free
+            let lock_held = hi % 3 == 1 && k == 2;
+            let hold_ms = [4600u64, 5050, 4850, 5300][(hi / 3) % 4];
             let holder = if lock_held {
                 let dbp = db.clone();
                 let h = std::thread::spawn(move || {
                     if let Ok(con) = rusqlite::Connection::open(&dbp) {
                         if con.execute_batch("BEGIN IMMEDIATE").is_ok() {
-                            std::thread::sleep(std::time::Duration::from_millis(5400));
+                            std::thread::sleep(std::time::Duration::from_millis(hold_ms));
                             let _ = con.execute_batch("ROLLBACK");
                         }
                     }
